@@ -231,6 +231,9 @@ def absent_keywords(rng, name, cfg, db, n=3):
     cands = []
     for w in keys[:3]:
         cands += [w[:-1], w + b"\x00", w + b"x", w[1:], bytes([w[0] ^ 1]) + w[1:], w[:1] + w]
+        # a stored keyword followed by what looks like a counter (schemes that concatenate keyword and counter without fixed
+        # widths confuse it with the keyword's own later entries)
+        cands += [w + b"\x01", w + b"\x01\x00", w + b"\x00\x01"]
     cands.append(_keyword(rng, limit, db))
     digests = [hashlib.sha1(w).digest() for w in keys[:2]]          # a digest of a stored keyword
     out = []
